@@ -211,3 +211,9 @@ func main() {
 
 // components that must not run cases in parallel (timing sensitive)
 var serialComponents = map[string]bool{}
+
+func jsonUnmarshal(raw json.RawMessage, v any) {
+	if err := json.Unmarshal(raw, v); err != nil {
+		panic(harnessErr("cfg: " + err.Error()))
+	}
+}
